@@ -47,7 +47,7 @@ RULE = ("random grammars (2-6 non-terminals with permuted names, 2-5 terminals, 
         "and re-ordered calls, calls with start_symbol_name (user symbols incl. sentences sampled from that symbol; rarely a "
         "terminal, an unknown name, a helper name X__S00), and for half of the sessions a second parser built from the SAME "
         "productions / synonyms / keywords objects (other smart_factorization value and/or start symbol) running a subset of the "
-        "calls.  Compared in Coq with the model (C01/RunTok.v): constructor outcome, is_ambiguous, validator verdict, the model "
+        "calls.  Compared in Coq with the model (C01/RunTok.v): constructor outcome, is_ambiguous (asked before and again after the calls), validator verdict, the model "
         "tokenizer's non-skipped tokens of every text against the generator's, the tree or error class of every call, the same "
         "for the second parser.  Non-trivial session = some call returns a tree and there are repeated calls.")
 TRUSTED_BASE = [
@@ -164,7 +164,7 @@ def gen_cases(rng, tier):
         if tier == "thorough" or i % 10 == 0:
             c["diag"] = True      # also compare prods_map / _suffix_symbols themselves
         cases.append(c)
-    n_tok, n_plain = (1500, 700) if tier == "thorough" else (90, 40)
+    n_tok, n_plain = (1000, 500) if tier == "thorough" else (90, 40)
     for i in range(n_tok):
         cases.append(_gen_tok_session(rng))
     for i in range(n_plain):
@@ -761,7 +761,9 @@ def _impl_session(case):
            "sfxs": sorted(p._suffix_symbols), "terminals": sorted(p.terminals), "second": None}
     if not run_calls(p, case["calls"], out["res"]):
         out["hang_at"] = len(case["calls"])
+        out["amb_after"] = out["amb"]
         return out
+    out["amb_after"] = bool(p.is_ambiguous())       # asked again after the calls: the answer must not depend on the history
     sec = case.get("second")
     if sec:
         p2, e2 = make(sec["smart"], sec["start"])
@@ -770,6 +772,7 @@ def _impl_session(case):
         else:
             out["second"] = {"ctor": ["ok"], "amb": bool(p2.is_ambiguous()), "res": []}
             run_calls(p2, sec["calls"], out["second"]["res"])
+            out["second"]["amb_after"] = bool(p2.is_ambiguous())
     return out
 
 
@@ -856,8 +859,8 @@ def _observation_session(case, obs):
     second = []
     if obs.get("second"):
         o2 = obs["second"]
-        second = SX.err(o2["ctor"][1]) if o2["ctor"][0] == "err" else [0, o2["amb"], _sx_results(o2["res"])]
-    return [0, obs["amb"], hyps, toks, _sx_results(obs["res"]), second]
+        second = SX.err(o2["ctor"][1]) if o2["ctor"][0] == "err" else [0, o2["amb"], _sx_results(o2["res"]), o2["amb_after"]]
+    return [0, obs["amb"], hyps, toks, _sx_results(obs["res"]), obs["amb_after"], second]
 
 
 def _oracle_session(case, obs):
